@@ -213,7 +213,7 @@ def run_c08(ctx, chk):
     # through the parser (`CSI .. m`): the listener receives exactly the parameters typed in *this*
     # sequence, in order, empty ones as 0 - nothing left over from an earlier abandoned sequence
     from . import rules_c03 as r3
-    tables = r3.dispatch_tables(ctx, chk, quiet=True)
+    tables = r3.dispatch_tables(ctx, chk, 'C08', only={'m'})
     r3.run_fsm(ctx, chk, tables, prop='C08', focus='sgr')
     chk.trust('rustc 1.97 lowering of the format string {:02x}{:02x}{:02x} (frozen template bytes)', 'HashMap / Vec summaries')
 
@@ -357,7 +357,7 @@ def tabs_op_run(ctx, meth, stops, x, sel_):
 def run_c18(ctx, chk):
     chk.assume('A-DIM', 'A-PUB', 'A-TOOL')
     from .rules_c03 import param_fidelity
-    param_fidelity(ctx, chk)      # through the parser the numbers arrive as typed (R-CAP)
+    param_fidelity(ctx, chk, fsm=True, prop='C18', finals='g')      # through the parser the numbers arrive as typed (R-CAP)
     sr = ctx.screen_run()
     eng = sr['engine']
     prog = ctx.prog
@@ -806,6 +806,10 @@ def run_c16(ctx, chk):
     prog = ctx.prog
     f = 'screen::Screen::resize'
     body = prog.bodies[f]
+    # "content discarded by a shrink or by earlier edits never reappears when the screen grows": resize
+    # prunes what lies beyond the NEW bounds and relies on nothing living beyond the CURRENT ones - the
+    # grid-bounds rule over every grid mutator
+    g.r_grid(ctx, chk, closures_of(ctx, F(GRID_FUNCS)))
     bad_same, bad_m, bad_d, bad_p, bad_dl, bad_c = [], [], [], [], [], []
     n_same = n_change = 0
     for r, st, ret in each_final(sr, f):
@@ -1031,7 +1035,7 @@ def run_c12(ctx, chk):
     # through the parser: SM / RM reach the screen with exactly the numbers typed and with the private
     # flag of *this* sequence (a `?` seen in an earlier, abandoned sequence must not leak)
     from . import rules_c03 as r3
-    tables = r3.dispatch_tables(ctx, chk, quiet=True)
+    tables = r3.dispatch_tables(ctx, chk, 'C12', only={'h', 'l'})
     r3.run_fsm(ctx, chk, tables, prop='C12', focus='modes')
 
 
@@ -1144,6 +1148,10 @@ def run_c04(ctx, chk):
     nd = g.r_dirty(ctx, chk, funcs)
     chk.cover('dirty-covered write sites', nd.eps, ['draw'])
     copyall_charopts(ctx, chk)
+    # the wrap at the bottom margin scrolls the region: what `index` does there (re-keying, the vacated
+    # row blank, also on a one-row screen) is part of what a drawn character does to the grid
+    from .rules_screen import rekey
+    rekey(ctx, chk, only=('index',))
     # D2/D3: every cell stored by draw itself is at the cursor row; at the cursor column or the next one; built from the cursor rendition
     agg = {}
     draw = ep('draw')
